@@ -502,7 +502,8 @@ def render_doctest(dt, indent, out, lineno0, env=None, defaults=None):
                            (st.get('inline_at') == 'first' and j == 0)):
                 text = text + '  # %s: ' % directive_spelling(st) + inline
             if not prefixed:
-                out.append(pad + '    ' + text)
+                # (string lines without a prompt: under the code, or flush with the prompt)
+                out.append(pad + ('' if st.get('flush') else '    ') + text)
             elif j == 0 or not st.get('ps2'):
                 out.append((pad + '>>> ' + text).rstrip(' '))
             else:
@@ -550,7 +551,8 @@ def render_docstring(doc, base_indent, out, lineno0, modname, callname, meta, en
             out.append('')
             dtid = '%s::%s:%d' % (modname, callname, num)
             ln = lineno0 + len(out)
-            steps = render_doctest(dt, ind, out, lineno0, env, defaults)
+            # (the usual reST layout: prose flush left, the example indented under it)
+            steps = render_doctest(dt, ind + ' ' * doc.get('deep', 0), out, lineno0, env, defaults)
             meta[dtid] = {'lineno': ln, 'steps': steps, 'modname': modname, 'callname': callname, 'num': num}
     out.append(ind + '"""')
     if doc.get('tabs'):
